@@ -66,6 +66,16 @@ def run(ctx):
             exhaustive = exhaustive and full
             allc = sc.with_flavors(variants(cases, ctx.tier), flavors)
             sc.run_family(ctx, allc, "confinement %s" % name, CLAUSES, extra_sig=xsig)
+    # two-sided interleavings across the boundary (one side moves an object out of / into its root while the other side
+    # acts on its copy, one side's events synced before the other's arrive): only the confinement clauses are judged
+    # (what the trees should converge to under such conflicts is C01/C02's business)
+    two = sc.generate(ctx, "out_two2", [1, 2], 2, ["I1", "LSR", "RSL", "SI"], "out")
+    two = [c for c in two if {t[1] for t in c["tokens"] if t[0] == "U"} == {0, 1}]
+    ctx.extra.setdefault("family_sizes", {})["out_two2"] = len(two)
+    two, full = sc.slice_cases(two, 1500 if ctx.tier == "quick" else 20000, key="out_two2")
+    exhaustive = exhaustive and full
+    sc.run_family(ctx, sc.with_flavors([dict(c, whole=True, kase={"kind": "c12", "declined": []}) for c in two], flavors),
+                  "two-sided across the boundary", {"InsideRoot", "OutsideUntouched"}, extra_sig=xsig)
     ctx.cov["exhaustive"] = exhaustive
 
 
